@@ -3031,6 +3031,10 @@ impl<const RICE_MAX: u32, I: SignedInteger> FromBitStreamUsing for ResidualParti
                     .map(|_| {
                         let msb = r.read_unary::<1>()?;
                         let lsb = r.read_counted::<RICE_MAX, u32>(rice)?;
+                        // a code that stands for more than 32 bits is no residual
+                        if msb > u32::MAX >> u32::from(rice) {
+                            return Err(Error::ResidualOverflow);
+                        }
                         let unsigned = (msb << u32::from(rice)) | lsb;
                         Ok::<_, Error>(if (unsigned & 1) == 1 {
                             -(I::from_u32(unsigned >> 1)) - I::ONE
